@@ -340,6 +340,20 @@ Theorem attested_sale_not_repeated : forall (chain nonce contract : Z) (client :
 Proof. exact try_sale_not_repeated. Qed.
 Print Assumptions attested_sale_not_repeated.
 
+(** A premise that is needed.  [op_wf] (premise of escrow_covers_licences) asks, among others,
+    that governance does not configure the module account itself as a funder; the code does not
+    refuse that, and then the escrow stops covering the licences: *)
+Theorem funder_premise_is_needed_refuted :
+  inv ex_s0 /\
+  (forall o, In o ex_escrow_funder_ops -> op_wf o \/ o = SetFunders [escrow]) /\
+  let s := run ex_s0 ex_escrow_funder_ops in
+  map snd (trace ex_s0 ex_escrow_funder_ops) = [Ok; Ok; Ok; Ok; Ok] /\
+  bal s escrow bond = 20000000 /\ lic_sum bond (lics s) = 27000000 /\ gifts s bond = 0 /\
+  let s' := run s [Register (3, false)] in
+  bal s' escrow bond = 0 /\ snd (step s' (Register (4, false))) = Err EInsufficientFunds.
+Proof. exact funder_premise_refuted. Qed.
+Print Assumptions funder_premise_is_needed_refuted.
+
 (** Second-round source facts: the collaborator calls the fault model numbers are the calls the
     three keeper functions make through their interfaces, in this order (and the model makes as many:
     the counters below are the model's, on successful runs); the funder loop has no early exit (the
